@@ -151,6 +151,7 @@ func (g *graphMemoizer) AddTriples(ctx context.Context, ts []*triple.Triple) err
 	defer verifYield(ctx, "write:after-forward")
 
 	err := g.g.AddTriples(ctx, ts)
+	verifYield(ctx, "write:after-inner")
 	// A lookup that missed the cache before or during the write may have read
 	// the state before it and still be about to memoize it, or have done so
 	// already: start a new generation and drop what was memoized meanwhile.
@@ -185,6 +186,7 @@ func (g *graphMemoizer) RemoveTriples(ctx context.Context, ts []*triple.Triple) 
 	defer verifYield(ctx, "write:after-forward")
 
 	err := g.g.RemoveTriples(ctx, ts)
+	verifYield(ctx, "write:after-inner")
 	// A lookup that missed the cache before or during the write may have read
 	// the state before it and still be about to memoize it, or have done so
 	// already: start a new generation and drop what was memoized meanwhile.
